@@ -2,6 +2,7 @@ package harness
 
 import (
 	"fmt"
+	"strings"
 	"math"
 	"math/rand/v2"
 
@@ -391,6 +392,73 @@ func applyChainVectors(d DocSpec, schema models.IndexSchema, id int) {
 
 // GenHistory generates a history against a shadow model so that the interesting
 // cases (fresh / existing / deleted / never-stored ids) occur by construction.
+// zeroDistanceTwin returns a vector that the index's own distance cannot tell from v
+// (distance 0) although it is, where the metric allows, a different vector.
+func zeroDistanceTwin(metric string, quant *models.Quantizer, v []float32) []float32 {
+	out := make([]float32, len(v))
+	bits := func(th float32) []float32 {
+		for i, x := range v {
+			if x > th {
+				out[i] = x + 1
+			} else {
+				out[i] = x - 1
+			}
+		}
+		return out
+	}
+	switch {
+	case metric == models.DistanceHamming || metric == models.DistanceJaccard:
+		return bits(0.5)
+	case quant != nil && quant.Type == models.QuantizerBinary && quant.Binary != nil && quant.Binary.Threshold != nil:
+		return bits(*quant.Binary.Threshold)
+	case metric == models.DistanceDot && len(v) >= 2:
+		// orthogonal: rotate the first two components (a zero vector is at distance 0 from everything)
+		out[0], out[1] = -v[1], v[0]
+		if v[0] == 0 && v[1] == 0 {
+			out[0] = 1
+		}
+		return out
+	}
+	copy(out, v) // euclidean, cosine on unit vectors, haversine: only the vector itself
+	return out
+}
+
+var genStopWords = map[string]bool{"the": true, "and": true, "a": true, "of": true, "is": true, "to": true, "!!!": true, "...": true}
+
+// shiftTermFrequencies rewrites a text so that its set of distinct (non-stop) words
+// and its length stay the same while one occurrence of a repeated word becomes another
+// word of the text: "fox fox dog" -> "fox dog dog".
+func shiftTermFrequencies(txt string) (string, bool) {
+	words := strings.Fields(txt)
+	count := map[string]int{}
+	for _, w := range words {
+		count[strings.ToLower(w)]++
+	}
+	from, to := -1, ""
+	for i, w := range words {
+		lw := strings.ToLower(w)
+		if from < 0 && count[lw] >= 2 && !genStopWords[lw] {
+			from = i
+		}
+	}
+	if from < 0 {
+		return "", false
+	}
+	for _, w := range words {
+		lw := strings.ToLower(w)
+		if lw != strings.ToLower(words[from]) && !genStopWords[lw] {
+			to = w
+			break
+		}
+	}
+	if to == "" {
+		return "", false
+	}
+	out := append([]string(nil), words...)
+	out[from] = to
+	return strings.Join(out, " "), true
+}
+
 func GenHistory(r *rand.Rand, schema models.IndexSchema, maxPointSize int, o HistoryOpts) []Op {
 	shadow := NewRefShard(maxPointSize)
 	var ops []Op
@@ -480,6 +548,38 @@ func GenHistory(r *rand.Rand, schema models.IndexSchema, maxPointSize int, o His
 					for _, name := range sortedKeys(schema) {
 						if t := schema[name].Type; t == models.IndexTypeVectorFlat || t == models.IndexTypeVectorVamana {
 							delete(d, name)
+						}
+					}
+				}
+				// now and then the new vector is a different vector at distance zero from the
+				// stored one under the index's own distance (orthogonal for dot, same bits for
+				// hamming / jaccard / a fixed binary threshold, identical otherwise): an update
+				// that must still replace the stored vector
+				if cur, ok := shadow.Docs[PID(id)]; ok && vecStyle != "chain" {
+					for _, name := range sortedKeys(schema) {
+						t := schema[name].Type
+						if (t != models.IndexTypeVectorFlat && t != models.IndexTypeVectorVamana) || r.IntN(4) != 0 {
+							continue
+						}
+						dim, metric, quant := vecIndexInfo(schema[name])
+						if old, ok := docVector(cur, name, dim); ok {
+							d[name] = VV(zeroDistanceTwin(metric, quant, old))
+						}
+					}
+				}
+				// ... and now and then a text is rewritten with the same distinct words and the
+				// same number of words but other multiplicities (only term frequencies change)
+				if cur, ok := shadow.Docs[PID(id)]; ok {
+					for _, name := range sortedKeys(schema) {
+						if schema[name].Type != models.IndexTypeText || r.IntN(4) != 0 {
+							continue
+						}
+						if old, ok := Lookup(cur, name); ok {
+							if txt, ok := old.(string); ok {
+								if twin, ok := shiftTermFrequencies(txt); ok {
+									d[name] = VS(twin)
+								}
+							}
 						}
 					}
 				}
